@@ -360,6 +360,19 @@ def _sites(c, fid, body, kinds):
                 it = c.tys(n["idx"].get("ty")) if n["idx"].get("ty") is not None else "?"
                 yield dict(kind="panic", what="index", descr="%s[%s] on %s%s" % (short_descr(c, n["base"]), short_descr(c, n["idx"]), bt.replace("&", "").split("<")[0], gtxt),
                            loc=c.loc(n.get("sp")), node=n, idx_ty=it)
+            # signed arithmetic that panics on overflow when overflow checks are on (dev / test profile)
+            SIGNED = ("i8", "i16", "i32", "i64", "i128", "isize")
+            if cal and re.match(r"core::num::<impl i\w+>::(abs|pow|neg)$", strip_generics(cal["path"])):
+                args = ([n["recv"]] if k == "mcall" else []) + n.get("args", [])
+                yield dict(kind="panic", what="signed " + strip_generics(cal["path"]).rsplit("::", 1)[-1], descr=(short_descr(c, args[0]) if args else "") + gtxt,
+                           loc=c.loc(n.get("sp")), node=n)
+            if k == "unary" and n.get("op") == "-" and n["e"]["k"] != "lit" and c.tys(n.get("ty")) in SIGNED:
+                yield dict(kind="panic", what="signed neg", descr=short_descr(c, n["e"]) + gtxt, loc=c.loc(n.get("sp")), node=n)
+            if k in ("binary", "assign_op") and n.get("op") in ("+", "-", "*", "+=", "-=", "*="):
+                ty = c.tys(n.get("ty")) if k == "binary" else c.tys(n["l"].get("ty"))
+                if ty in SIGNED:
+                    yield dict(kind="panic", what="signed " + n["op"], descr="%s %s %s%s" % (short_descr(c, n["l"]), n["op"], short_descr(c, n["r"]), gtxt),
+                               loc=c.loc(n.get("sp")), node=n)
         if "usub" in kinds and k in ("binary", "assign_op") and n["op"] in ("-", "-="):
             ty = c.tys(n.get("ty")) if k == "binary" else c.tys(n["l"].get("ty"))
             if ty in ("usize", "u32", "u64", "u8", "u16"):
